@@ -1,11 +1,13 @@
 \* case generation, quick tier (same constants as AnnotateChange_quick.cfg)
 CONSTANTS
   HMax = 4
+  SingleKinds = {"node", "way", "relation"}
   BothVis = FALSE
   PairVers = {2, 3}
   NRandom = 1500
   BuildMax = 0
   BuildIds = {}
+  StaticInit = TRUE
 INIT GInit
 NEXT GNext
 CHECK_DEADLOCK FALSE
